@@ -74,6 +74,15 @@ func (s *Stream) count(tier string) int {
 	return int(n)
 }
 
+// outDir is where evidence and replay files go: the verification directory, except in self-test runs against a
+// scratch copy of the repository (VERIF_REPO in ./check), which must not overwrite the evidence of the real tree.
+func outDir() string {
+	if d := os.Getenv("VH_OUT_DIR"); d != "" {
+		return d
+	}
+	return verifDir()
+}
+
 func verifDir() string {
 	if d := os.Getenv("VERIF_DIR"); d != "" {
 		return d
@@ -304,8 +313,8 @@ func parent(id, tier string) int {
 	}
 	seed := envInt("VERIF_SEED", 0)
 	vd := verifDir()
-	os.MkdirAll(filepath.Join(vd, "evidence"), 0o755)
-	os.MkdirAll(filepath.Join(vd, "replays"), 0o755)
+	os.MkdirAll(filepath.Join(outDir(), "evidence"), 0o755)
+	os.MkdirAll(filepath.Join(outDir(), "replays"), 0o755)
 	work, err := os.MkdirTemp(filepath.Join(vd, ".work"), id+"-")
 	if err != nil {
 		os.MkdirAll(filepath.Join(vd, ".work"), 0o755)
@@ -476,7 +485,7 @@ func parent(id, tier string) int {
 			b, _ := json.MarshalIndent(v, "", " ")
 			h := sha1.Sum([]byte(fmt.Sprintf("%s|%s|%d|%d|%s", v.Property, v.Stream, v.Index, v.Seed, v.Tier)))
 			rel := filepath.Join("replays", fmt.Sprintf("%s-%x.json", id, h[:6]))
-			os.WriteFile(filepath.Join(vd, rel), b, 0o644)
+			os.WriteFile(filepath.Join(outDir(), rel), b, 0o644)
 			fmt.Printf("VIOLATION property=%s replay=%s\n", id, rel)
 			fmt.Printf("  stream=%s index=%d key=%s: %s\n", v.Stream, v.Index, v.Key, oneLine(v.Message, 600))
 		}
@@ -543,7 +552,7 @@ func parent(id, tier string) int {
 		"coverage": cov, "assumptions": p.Assume, "wall_s": time.Since(t0).Seconds(), "violations": nviol,
 	}
 	eb, _ := json.MarshalIndent(ev, "", " ")
-	os.WriteFile(filepath.Join(vd, "evidence", id+".json"), eb, 0o644)
+	os.WriteFile(filepath.Join(outDir(), "evidence", id+".json"), eb, 0o644)
 
 	fmt.Printf("%s %s seed=%d: %d cases, %d distinct non-trivial, %d violations, %.1fs\n", id, tier, seed, agg.Cases, len(nontrivial), nviol, time.Since(t0).Seconds())
 	var cn []string
